@@ -1,7 +1,18 @@
 /-
   C13 — keys, WIF, ECDSA: property theorems.
+
+  The elliptic-curve arithmetic of python-bitcoinlib runs inside OpenSSL; what the library itself
+  computes is the glue modelled in Model/Keys.lean.  The theorems below are about that glue
+  (`Model.Keys.*`) against the reference definitions (`Spec.Keys.*`, `Crypto.Secp256k1.der*`); the
+  reference curve itself is only guarded by the kernel-checked constants in the first section.
+  OpenSSL's behaviour enters as the contracts written in Model/Keys.lean and is covered by the
+  correspondence runs (T2) only.
 -/
 import BtcVerif.Crypto.Secp256k1
+import BtcVerif.Model.Keys
+import BtcVerif.Proofs.Der
+import BtcVerif.Proofs.Keys
+import BtcVerif.Proofs.Ecdsa
 
 namespace BtcVerif.C13
 open BtcVerif.Crypto
@@ -43,5 +54,180 @@ theorem two_mul_G :
     Secp256k1.mul 2 Secp256k1.G = Secp256k1.add Secp256k1.G Secp256k1.G ∧
     Secp256k1.onCurve (Secp256k1.mul 2 Secp256k1.G) = true ∧
     Secp256k1.mul 2 Secp256k1.G ≠ .inf := by decide +kernel
+
+/-! ### strict DER -/
+
+open Secp256k1 in
+/-- `der_roundtrip`: strict decoding inverts encoding for all r, s below 2^256 (in particular for every
+    ECDSA signature over secp256k1, and for the out-of-range values 0, n, … of the verification matrix) -/
+theorem der_roundtrip (r s : Nat) (hr : r < 2 ^ 256) (hs : s < 2 ^ 256) :
+    derDecodeStrict (derEncode r s) = some (r, s) := by
+  have h1 := derIntBody_length_le 32 r (by simpa using hr)
+  have h2 := derIntBody_length_le 32 s (by simpa using hs)
+  exact derDecodeStrict_derEncode_of_len r s (by omega)
+
+open Secp256k1 in
+/-- `der_strict`: the strict decoder accepts only the canonical encoding — whatever it accepts is,
+    byte for byte, the encoding of the pair it returns (no alternative lengths, paddings, trailing bytes) -/
+theorem der_strict (sig : Bytes) (r s : Nat) (h : derDecodeStrict sig = some (r, s)) :
+    sig = derEncode r s := (derDecodeStrict_inv sig r s h).1
+
+open Secp256k1 in
+/-- encodings of different pairs differ (so a signature has exactly one strict DER form) -/
+theorem derEncode_injective (r s r' s' : Nat) (hr : r < 2 ^ 256) (hs : s < 2 ^ 256)
+    (h : derEncode r s = derEncode r' s') : r = r' ∧ s = s' := by
+  have h1 := der_roundtrip r s hr hs
+  have l1 := derIntBody_length_le 32 r (by simpa using hr)
+  have l2 := derIntBody_length_le 32 s (by simpa using hs)
+  have hlen := congrArg List.length h
+  rw [derEncode_length, derEncode_length] at hlen
+  have h2 := derDecodeStrict_derEncode_of_len r' s' (by omega)
+  rw [h, h2] at h1
+  simp at h1
+  exact ⟨h1.1.symm, h1.2.symm⟩
+
+/-! ### `CompareBigEndian`, `IsLowDERSignature` -/
+
+/-- `CompareBigEndian(c1, c2)` has the sign of `int(c1) − int(c2)` (big-endian), whatever the two lengths -/
+theorem compareBigEndian_sign (c1 c2 : Bytes) :
+    (0 < Model.Keys.compareBigEndian c1 c2 ↔ beNat c2 < beNat c1) ∧
+    (Model.Keys.compareBigEndian c1 c2 = 0 ↔ beNat c1 = beNat c2) ∧
+    (Model.Keys.compareBigEndian c1 c2 < 0 ↔ beNat c1 < beNat c2) := compareBigEndian_spec c1 c2
+
+/-- the function-local table of `IsLowDERSignature` is ⌊n/2⌋ -/
+theorem maxModHalfOrder_eq : beNat Model.Keys.maxModHalfOrder = Spec.Keys.halfOrder := beNat_maxModHalfOrder
+
+/-- `isLowDer_iff` (encoder form): on the strict DER encoding of any r, s < 2^256 the function raises
+    nothing and answers exactly `0 < s ≤ n/2` -/
+theorem isLowDer_iff_encode (r s : Nat) (hr : r < 2 ^ 256) (hs : s < 2 ^ 256) :
+    Model.Keys.isLowDERSignature (Secp256k1.derEncode r s) = .ok (decide (Spec.Keys.LowS s)) := by
+  have h1 := derIntBody_length_le 32 r (by simpa using hr)
+  have h2 := derIntBody_length_le 32 s (by simpa using hs)
+  exact isLowDER_derEncode r s (by omega)
+
+/-- `isLowDer_iff`: on every strictly DER-encoded signature, `IsLowDERSignature` raises nothing and
+    returns true exactly when `0 < s ≤ n/2` -/
+theorem isLowDer_iff (sig : Bytes) (r s : Nat) (h : Secp256k1.derDecodeStrict sig = some (r, s)) :
+    Model.Keys.isLowDERSignature sig = .ok (decide (0 < s ∧ s ≤ Secp256k1.n / 2)) := by
+  obtain ⟨e, hl⟩ := derDecodeStrict_inv sig r s h
+  rw [e]
+  exact isLowDER_derEncode r s hl
+
+/-! ### low-S normalisation -/
+
+theorem n_odd : Secp256k1.n % 2 = 1 := by decide +kernel
+
+/-- `lowS_spec`: for 0 < s < n the normal form is `s` or `n − s`, is low, and is a fixed point;
+    both members of a twin pair have the same normal form -/
+theorem lowS_spec (s : Nat) (h0 : 0 < s) (hn : s < Secp256k1.n) :
+    (Spec.Keys.lowS s = s ∨ Spec.Keys.lowS s = Secp256k1.n - s) ∧
+    Spec.Keys.LowS (Spec.Keys.lowS s) ∧
+    Spec.Keys.lowS (Spec.Keys.lowS s) = Spec.Keys.lowS s ∧
+    Spec.Keys.lowS (Secp256k1.n - s) = Spec.Keys.lowS s ∧
+    (Spec.Keys.LowS s → Spec.Keys.lowS s = s) := by
+  have := n_odd
+  unfold Spec.Keys.lowS Spec.Keys.LowS Spec.Keys.halfOrder Spec.Keys.n
+  refine ⟨?_, ?_, ?_, ?_, ?_⟩ <;> (repeat' split) <;> omega
+
+/-- `signature_to_low_s` on a strict DER signature with 0 < s < n returns the strict DER encoding of
+    `(r, lowS s)` -/
+theorem signatureToLowS_spec (sig : Bytes) (r s : Nat) (h : Secp256k1.derDecodeStrict sig = some (r, s)) :
+    Model.Keys.signatureToLowS sig = some (Secp256k1.derEncode r (Spec.Keys.lowS s)) := by
+  unfold Model.Keys.signatureToLowS Spec.Keys.lowS Spec.Keys.halfOrder Spec.Keys.n
+  rw [h]
+
+/-- `sign_spec`: whatever strict DER signature `(r, s)` with r < 2^256, 0 < s < n `ECDSA_sign` returns,
+    `CECKey.sign` returns a strict DER signature of `(r, s')` with `s' ∈ {s, n − s}` low — no
+    exception, never `None` — and `IsLowDERSignature` holds of the result -/
+theorem sign_spec (hash raw : Bytes) (r s : Nat) (hh : hash.length = 32)
+    (hraw : Secp256k1.derDecodeStrict raw = some (r, s)) (hr : r < 2 ^ 256) (h0 : 0 < s) (hn : s < Secp256k1.n) :
+    ∃ out, Model.Keys.signFinish hash raw = .ok (some out) ∧
+      Secp256k1.derDecodeStrict out = some (r, Spec.Keys.lowS s) ∧
+      Spec.Keys.LowS (Spec.Keys.lowS s) ∧
+      Model.Keys.isLowDERSignature out = .ok true := by
+  obtain ⟨hor, hlow, _, _, hfix⟩ := lowS_spec s h0 hn
+  have hn256 : Secp256k1.n < 2 ^ 256 := by decide +kernel
+  have hls : Spec.Keys.lowS s < 2 ^ 256 := by rcases hor with e | e <;> rw [e] <;> omega
+  refine ⟨Secp256k1.derEncode r (Spec.Keys.lowS s), ?_, der_roundtrip _ _ hr hls, hlow, ?_⟩
+  · unfold Model.Keys.signFinish
+    simp only [hh, ne_eq, not_true_eq_false, if_false]
+    rw [isLowDer_iff raw r s hraw]
+    by_cases hl : 0 < s ∧ s ≤ Secp256k1.n / 2
+    · have e := der_strict raw r s hraw
+      have : Spec.Keys.lowS s = s := hfix hl
+      simp [hl, this, e, bind, Except.bind, pure, Except.pure]
+    · simp [hl, bind, Except.bind, pure, Except.pure, signatureToLowS_spec raw r s hraw]
+  · rw [isLowDer_iff_encode r _ hr hls]
+    simp [hlow]
+
+/-- a digest that is not 32 bytes long is refused with ValueError before anything is signed -/
+theorem sign_hash_length (hash raw : Bytes) (hh : hash.length ≠ 32) :
+    Model.Keys.signFinish hash raw = .error .valueerr := by
+  simp [Model.Keys.signFinish, hh]
+
+/-! ### WIF payload -/
+
+/-- the payload built by `from_secret_bytes` is the WIF layout `secret ‖ 01?` -/
+theorem wifPayload_eq_spec (secret : Bytes) (c : Bool) :
+    Model.Keys.wifPayload secret c = Spec.Keys.wifPayload secret c := rfl
+
+/-- `wif_roundtrip` (payload level): under every version byte, parsing the payload built from a
+    32-byte secret and a compression flag gives both back — hence the same public key -/
+theorem wif_roundtrip (ver : Nat) (secret : Bytes) (c : Bool) (h : secret.length = 32) :
+    Model.Keys.wifParse ver ver (Model.Keys.wifPayload secret c) = .ok (secret, c) := by
+  unfold Model.Keys.wifParse Model.Keys.wifPayload
+  have ht : List.take 32 (secret ++ if c = true then [1] else []) = secret := by
+    rw [← h]; simp
+  simp only [ne_eq, not_true_eq_false, if_false, ht, h]
+  cases c <;> simp [h]
+
+/-- in particular under the four chains' SECRET_KEY prefixes -/
+theorem wif_roundtrip_chains (p : Spec.ChainParams) (_hp : p ∈ Spec.chainTable) (secret : Bytes) (c : Bool)
+    (h : secret.length = 32) :
+    Model.Keys.wifParse p.secretKey p.secretKey (Model.Keys.wifPayload secret c) = .ok (secret, c) :=
+  wif_roundtrip p.secretKey secret c h
+
+/-- a WIF string of another version byte (another chain, an address) is refused with a Base58 error -/
+theorem wif_wrong_version (chainVer ver : Nat) (payload : Bytes) (h : ver ≠ chainVer) :
+    Model.Keys.wifParse chainVer ver payload = .error .b58err := by
+  simp [Model.Keys.wifParse, h]
+
+/-- the public key attached to a parsed secret is the reference point `secret·G` in the encoding the
+    flag selects (OpenSSL contract of Model/Keys.lean) -/
+theorem pub_eq_reference (secret : Bytes) (c : Bool) :
+    Model.Keys.pubOfSecret secret c = Secp256k1.encode (Secp256k1.mul (beNat secret) Secp256k1.G) c := rfl
+
+/-! ### ECDSA, abstractly (any prime-order module `E` over `ZMod q` with an even conversion `f`) -/
+
+section abstract
+variable {q : ℕ} [Fact q.Prime] {E : Type} [AddCommGroup E] [Module (ZMod q) E]
+
+/-- `verify_sign`: a signature made by the signing equation verifies under the signer's key -/
+theorem verify_sign (C : Ecdsa.Params q E) (d e k : ZMod q) (hR : k • C.g ≠ 0) (hr : Ecdsa.signR C k ≠ 0)
+    (hs : Ecdsa.signS C d e k ≠ 0) :
+    Ecdsa.Verify C (d • C.g) e (Ecdsa.signR C k) (Ecdsa.signS C d e k) := Ecdsa.verify_sign C d e k hR hr hs
+
+/-- `verify_lowS_twin`: `(r, s)` verifies exactly when `(r, n − s)` does, so low-S normalisation
+    (`lowS_spec`, `sign_spec`) never invalidates a signature and verification must accept both twins -/
+theorem verify_lowS_twin (C : Ecdsa.Params q E) (Q : E) (e r s : ZMod q) :
+    Ecdsa.Verify C Q e r s ↔ Ecdsa.Verify C Q e r (-s) := Ecdsa.verify_lowS_twin C Q e r s
+
+end abstract
+
+/-! ### non-vacuity -/
+
+example : Secp256k1.derDecodeStrict (Secp256k1.derEncode (2 ^ 255) 1) = some (2 ^ 255, 1) := by decide +kernel
+example : Secp256k1.derDecodeStrict [0x30, 0x06, 0x02, 0x01, 0x01, 0x02, 0x01, 0x01] = some (1, 1) := by decide
+example : Secp256k1.derDecodeStrict [0x30, 0x07, 0x02, 0x02, 0x00, 0x01, 0x02, 0x01, 0x01] = none := by decide
+example : Secp256k1.derDecodeStrict [0x30, 0x06, 0x02, 0x01, 0x01, 0x02, 0x01, 0x01, 0x00] = none := by decide
+example : Model.Keys.isLowDERSignature (Secp256k1.derEncode 1 (Secp256k1.n / 2)) = .ok true := by
+  rw [isLowDer_iff_encode 1 _ (by decide) (by decide +kernel)]; decide +kernel
+example : Model.Keys.isLowDERSignature (Secp256k1.derEncode 1 (Secp256k1.n / 2 + 1)) = .ok false := by
+  rw [isLowDer_iff_encode 1 _ (by decide) (by decide +kernel)]; decide +kernel
+example : Model.Keys.isLowDERSignature [0x30, 0x06, 0x02] = .error indexError := by decide
+example : Model.Keys.isLowDERSignature [0x30, 0x06, 0x02, 0x01, 0x01, 0x02, 0x05, 0x01] = .error structError := by
+  decide
+example : Spec.Keys.lowS (Secp256k1.n - 1) = 1 := by decide +kernel
+example : Model.Keys.wifParse 128 128 (List.replicate 32 7 ++ [1]) = .ok (List.replicate 32 7, true) := by decide
 
 end BtcVerif.C13
